@@ -41,9 +41,9 @@ Definition violates (v : violation) : Prop :=
   res (v_q v) (apply (v_i v) (v_c v) s) <> res (v_q v) s /\
   ~ (idx (v_q v) s < idx (v_q v) (apply (v_i v) (v_c v) s)).
 
-Ltac violation :=
-  unfold violates; cbn [v_log v_i v_c v_q];
-  split; [apply Reach_log; vm_compute; reflexivity|];
+Ltac violation w :=
+  unfold violates;
+  split; [apply (Reach_log (v_log w)); vm_compute; reflexivity|];
   split; [vm_compute; reflexivity|];
   split; [apply neq_compute; vm_compute; reflexivity
          |apply N.nlt_ge, N.leb_le; vm_compute; reflexivity].
@@ -51,7 +51,7 @@ Ltac violation :=
 (* 1. a delete-tree on a shorter prefix, an older tombstone left under the listed prefix *)
 Definition w_kvlist : violation :=
   Violation [(6, KVSet "a/b" 1 0); (23, KVDelete "a/b"); (26, KVSet "a/b" 2 0)] 27 (KVDeleteTree "a/") (QKVList "a/b").
-Lemma w_kvlist_violates : violates w_kvlist. Proof. violation. Qed.
+Lemma w_kvlist_violates : violates w_kvlist. Proof. violation w_kvlist. Qed.
 Lemma w_kvlist_decreases :
   let s := run (v_log w_kvlist) st0 in idx (QKVList "a/b") (apply 27 (KVDeleteTree "a/") s) < idx (QKVList "a/b") s.
 Proof. vm_compute. reflexivity. Qed.
@@ -59,7 +59,7 @@ Proof. vm_compute. reflexivity. Qed.
 (* 2. a service id registered again under another name *)
 Definition w_rename : violation :=
   Violation [(2, EnsureNode "n1" 1); (3, EnsureSvc "n1" (spec "s1" "web"))] 5 (EnsureSvc "n1" (spec "s1" "api")) (QSvcNodes "web").
-Lemma w_rename_violates : violates w_rename. Proof. violation. Qed.
+Lemma w_rename_violates : violates w_rename. Proof. violation w_rename. Qed.
 Lemma w_rename_no_wake :
   let s := run (v_log w_rename) st0 in
   res (QCSN "web") (apply 5 (v_c w_rename) s) <> res (QCSN "web") s /\
@@ -77,13 +77,13 @@ Proof. vm_compute. reflexivity. Qed.
 Definition w_connect : violation :=
   Violation [(2, EnsureNode "n1" 1); (3, EnsureSvc "n1" (spec "s1" "web"))] 5
             (EnsureSvc "n1" (proxy "p1" "web-proxy" "web")) (QConnectNodes "web").
-Lemma w_connect_violates : violates w_connect. Proof. violation. Qed.
+Lemma w_connect_violates : violates w_connect. Proof. violation w_connect. Qed.
 
 (* 4. a check registered again against another service of the node *)
 Definition w_check_moved : violation :=
   Violation [(2, EnsureNode "n1" 1); (3, EnsureSvc "n1" (spec "s1" "api")); (4, EnsureSvc "n1" (spec "s2" "web"));
              (5, EnsureCheck "n1" (ChkSpec "c2" 0 "s1" 0))] 7 (EnsureCheck "n1" (ChkSpec "c2" 0 "s2" 0)) (QCSN "api").
-Lemma w_check_moved_violates : violates w_check_moved. Proof. violation. Qed.
+Lemma w_check_moved_violates : violates w_check_moved. Proof. violation w_check_moved. Qed.
 Lemma w_check_moved_no_wake :
   let s := run (v_log w_check_moved) st0 in
   fires (ws (QCSN "api") s) (touched 7 (v_c w_check_moved) s) = false.
@@ -94,26 +94,24 @@ Proof. vm_compute. reflexivity. Qed.
 Definition w_csn_connect : violation :=
   Violation [(2, EnsureNode "n2" 1); (4, EnsureSvc "n2" (proxy "p1" "web-proxy" "web")); (5, EnsureNode "n1" 1);
              (21, EnsureSvc "n1" (SvcSpec "s1" "web" false "" true [] 80))] 27 (DelNode "n1") (QCSNConnect "web").
-Lemma w_csn_connect_violates : violates w_csn_connect. Proof. violation. Qed.
+Lemma w_csn_connect_violates : violates w_csn_connect. Proof. violation w_csn_connect. Qed.
 
 (* the hypotheses of the partial theorems are exactly what these witnesses break *)
 Lemma w_kvlist_unsafe : ~ cmd_kv_ok (v_q w_kvlist) (v_c w_kvlist).
-Proof. cbn. intros [H|H]; vm_compute in H; discriminate. Qed.
+Proof. unfold w_kvlist. cbn [v_q v_c cmd_kv_ok kv_ok deltree_ok]. intros [H|H]; vm_compute in H; discriminate. Qed.
 Lemma w_rename_unsafe : ~ safe_cmd (v_c w_rename) (run (v_log w_rename) st0).
 Proof.
-  cbn [safe_cmd v_c w_rename]. intros [H _].
-  specialize (H (Svc "web" false "" false [] 80 3 3)). cbn in H.
-  assert (Hl : services (run (v_log w_rename) st0) !! ("n1", "s1") = Some (Svc "web" false "" false [] 80 3 3))
-    by (vm_compute; reflexivity).
-  specialize (H Hl). discriminate.
+  remember (run (v_log w_rename) st0) as s eqn:Es.
+  assert (Hl : services s !! ("n1", "s1") = Some (Svc "web" false "" false [] 80 3 3)) by (rewrite Es; vm_compute; reflexivity).
+  clear Es. intros HS. unfold w_rename in HS. cbn [v_c safe_cmd] in HS. destruct HS as [H _].
+  specialize (H _ Hl). vm_compute in H. discriminate.
 Qed.
 Lemma w_check_moved_unsafe : ~ safe_cmd (v_c w_check_moved) (run (v_log w_check_moved) st0).
 Proof.
-  cbn [safe_cmd v_c w_check_moved]. intros H. unfold chk_safe in H.
-  specialize (H (Chk 0 "s1" "api" [] 0 5 5)). cbn in H.
-  assert (Hl : checks (run (v_log w_check_moved) st0) !! ("n1", "c2") = Some (Chk 0 "s1" "api" [] 0 5 5))
-    by (vm_compute; reflexivity).
-  specialize (H Hl). discriminate.
+  remember (run (v_log w_check_moved) st0) as s eqn:Es.
+  assert (Hl : checks s !! ("n1", "c2") = Some (Chk 0 "s1" "api" [] 0 5 5)) by (rewrite Es; vm_compute; reflexivity).
+  clear Es. intros HS. unfold w_check_moved in HS. cbn [v_c safe_cmd] in HS. unfold chk_safe in HS.
+  specialize (HS _ Hl). vm_compute in HS. discriminate.
 Qed.
 Lemma w_connect_not_okq : ~ okq (v_q w_connect).
 Proof. intros H. inversion H as [q Hq|q Hq| |nm wc q Hq]; subst; inversion Hq. Qed.
@@ -150,3 +148,99 @@ Lemma ex_safe : safe_cmd ex_cmd ex_state /\ safe_query (QCSN "web") ex_cmd.
 Proof. split; [exact I|]. split; [eapply ok_svc; constructor|exact I]. Qed.
 Lemma ex_changes : res (QCSN "web") (apply 9 ex_cmd ex_state) <> res (QCSN "web") ex_state.
 Proof. apply neq_compute. vm_compute. reflexivity. Qed.
+
+(* coherence of a concrete state, by computation *)
+Definition coherent_row (s : st) (k : string * string) (x : chk) : Prop :=
+  c_svc x = "" \/ from_option (fun sv => sv_name sv = c_svcname x) True (services s !! (k.1, c_svc x)).
+#[global] Instance coherent_row_dec s k x : Decision (coherent_row s k x).
+Proof. unfold coherent_row. destruct (services s !! (k.1, c_svc x)); cbn; apply _. Defined.
+Lemma coherent_by_compute s : bool_decide (map_Forall (coherent_row s) (checks s)) = true -> Coherent s.
+Proof.
+  intros H. apply bool_decide_eq_true in H. intros n cid x sv Hx Hne Hsv.
+  destruct (H (n, cid) x Hx) as [He|Hc]; [contradiction|]. cbn in Hc. rewrite Hsv in Hc. exact Hc.
+Qed.
+Lemma ex_coherent : Coherent ex_state.
+Proof. apply coherent_by_compute. vm_compute. reflexivity. Qed.
+
+(* ---------- the lemmas the property file states ---------- *)
+Lemma never_missed_refuted_lemma :
+  ~ (forall hi s i c q, Reach hi s -> hi < i -> res q (apply i c s) <> res q s ->
+       idx q s < idx q (apply i c s) /\ fires (ws q s) (touched i c s) = true).
+Proof.
+  intros H. destruct w_rename_violates as (HR & Hlt & Hc & Hn). apply Hn.
+  exact (proj1 (H _ _ _ _ _ HR Hlt Hc)).
+Qed.
+
+Lemma never_missed_partial_lemma hi s i c q :
+  Reach hi s -> Coherent s -> hi < i -> safe_cmd c s -> safe_query q c ->
+  res q (apply i c s) <> res q s ->
+  idx q s < idx q (apply i c s) /\ fires (ws q s) (touched i c s) = true.
+Proof.
+  intros HR HC Hlt Hs Hq Hc. split.
+  - exact (never_missed_index hi s i c q HR HC Hlt Hs Hq Hc).
+  - exact (never_missed_fires hi s i c q HR HC Hlt Hs Hq Hc).
+Qed.
+
+Lemma monotone_refuted_lemma :
+  ~ (forall hi s i c q, Reach hi s -> hi < i -> (forall u, c <> Reap u) -> idx q s <= idx q (apply i c s)).
+Proof.
+  intros H. destruct w_kvlist_violates as (HR & Hlt & _ & _).
+  assert (Hr : forall u, v_c w_kvlist <> Reap u) by (intros u; discriminate).
+  pose proof (H _ _ _ _ (v_q w_kvlist) HR Hlt Hr) as Hle.
+  pose proof w_kvlist_decreases as Hd. cbv zeta in Hd.
+  apply N.lt_nge in Hd. apply Hd. exact Hle.
+Qed.
+
+Lemma loop_lemma min rounds :
+  match blocking_query min rounds with
+  | XIndex i => min <> 0 /\ exists m, min_source min rounds m /\ m < i
+  | XTimeout _ | XAbandon _ => min <> 0
+  | XNonBlocking _ => min = 0
+  | XStuck => True
+  end.
+Proof.
+  pose proof (loop_exit_kinds min rounds) as Hk.
+  destruct (blocking_query min rounds) as [i| | | |] eqn:E; try exact Hk.
+  split; [exact Hk|]. exact (loop_contract min rounds i Hk E).
+Qed.
+
+Lemma wakes_lemma hi s i c q :
+  Reach hi s -> Coherent s -> hi < i -> 1 < i -> safe_cmd c s -> safe_query q c ->
+  res q (apply i c s) <> res q s ->
+  fires (ws q s) (touched i c s) = true /\
+  reported q s < reported q (apply i c s) /\
+  forall w rest,
+    loop (LS (reported q s) false false) ((idx q s, ENone, Fired) :: (idx q (apply i c s), ENone, w) :: rest)
+    = XIndex (reported q (apply i c s)).
+Proof.
+  intros HR HC Hlt H1 Hs Hq Hc.
+  pose proof (never_missed_reported hi s i c q HR HC Hlt H1 Hs Hq Hc) as Hrep.
+  split; [exact (never_missed_fires hi s i c q HR HC Hlt Hs Hq Hc)|].
+  split; [exact Hrep|]. intros w rest. exact (blocked_query_returns q s (apply i c s) w rest Hrep).
+Qed.
+
+Lemma refuted_classes_lemma :
+  violates w_kvlist /\ violates w_rename /\ violates w_connect /\ violates w_check_moved /\ violates w_csn_connect /\
+  (let s := run (v_log w_rename) st0 in
+   res (QCSN "web") (apply 5 (v_c w_rename) s) <> res (QCSN "web") s /\
+   fires (ws (QCSN "web") s) (touched 5 (v_c w_rename) s) = false).
+Proof.
+  exact (conj w_kvlist_violates (conj w_rename_violates (conj w_connect_violates
+        (conj w_check_moved_violates (conj w_csn_connect_violates w_rename_no_wake))))).
+Qed.
+
+Lemma hypotheses_met_lemma :
+  Reach 8 ex_state /\ Coherent ex_state /\ 8 < 9 /\ safe_cmd ex_cmd ex_state /\ safe_query (QCSN "web") ex_cmd /\
+  res (QCSN "web") (apply 9 ex_cmd ex_state) <> res (QCSN "web") ex_state.
+Proof.
+  split; [exact ex_reach|]. split; [exact ex_coherent|]. split; [reflexivity|].
+  split; [exact (proj1 ex_safe)|]. split; [exact (proj2 ex_safe)|exact ex_changes].
+Qed.
+Lemma hypotheses_exclude_lemma :
+  ~ cmd_kv_ok (v_q w_kvlist) (v_c w_kvlist) /\
+  ~ safe_cmd (v_c w_rename) (run (v_log w_rename) st0) /\
+  ~ safe_cmd (v_c w_check_moved) (run (v_log w_check_moved) st0) /\
+  ~ okq (v_q w_connect) /\ ~ okq (v_q w_csn_connect).
+Proof.
+  exact (conj w_kvlist_unsafe (conj w_rename_unsafe (conj w_check_moved_unsafe (conj w_connect_not_okq w_csn_connect_not_okq)))).
+Qed.
